@@ -142,7 +142,9 @@ def replay_model_histories(binary, hists, batch, v):
 LT_LINE = {"header": "# This file is maintained by Breadlog, a comment line", "blank": "", "value": "next_reference_id: {v}",
            "valuecmt": "next_reference_id: {v} # bumped by hand", "valuesp": "next_reference_id:    {v}   ",
            "otherkey": "some_other_key: 1", "garbage": "this is not, a mapping", "conflict": "<<<<<<< HEAD",
-           "longtail": "# " + "x" * 300}
+           "longtail": "# " + "x" * 300,
+           # not valid UTF-8 (written byte for byte): a Latin-1 character in a comment, binary rubbish
+           "latin1cmt": "# caf\udce9 au lait", "binary": "\udcff\udcfe\x00\x01\udc80"}
 LT_VALUE = {"small": "7", "max": "4294967295", "zero": "0", "over": "4294967296", "neg": "-7", "word": "abc", "empty": "",
             "float": "7.5", "quoted": '"7"', "plus": "+7", "hex": "0x7", "lead0": "007"}
 
@@ -156,12 +158,12 @@ def _locktext_job(job):
     P = rl.bl.Project(tag="lt")
     try:
         P.write_sources({"f1.rs": rl.bl.render_file("f1.rs", [S(11)], False), "f2.rs": rl.bl.render_file("f2.rs", [S(21, ref=3)], False)})
-        with open(P.lock_path, "w", newline="") as fh:
-            fh.write(text)
+        with open(P.lock_path, "wb") as fh:
+            fh.write(text.encode("utf-8", "surrogateescape"))
         r = rl.bl.run_breadlog(binary, P.config_path, tmpdir=P.tmp, shim=False, timeout=60)
         after = rl.bl.abstract_file(P.read_sources()["f1.rs"].decode("utf-8", "replace"), False)
         got = after[0]["ref"] if after else None
-        return {"exit": r.exit_class, "id": got, "lock_after": P.get_lock(), "text": text}
+        return {"exit": r.exit_class, "id": got, "lock_after": P.get_lock(), "text": text.encode("utf-8", "surrogateescape").decode("latin-1")}
     finally:
         P.close()
 
@@ -796,11 +798,13 @@ def c16(tier):
     for use_cache in (None, True, False):
         for skey in ("omitted", "explicit"):
             for structured in ((False,) if skey == "omitted" else (False, True)):
-                for ext in (None, ["rs"], ["rs", "txt"]):
+                # explicit lists: [rs], and lists in which rs is neither alone nor in sorted position (the other extensions
+                # match no file of the tree, so the in-scope set is the same)
+                for ext in (None, ["rs"], ["rs", "inc"], ["zz", "rs", "aa"]):
                     for lock in (None, 50, 3, "corrupt", "empty"):
                         for tree in trees:
                             sc = rl.Scenario("cfg-%d" % n, tree, lock=lock, structured=structured, use_cache=use_cache,
-                                             structured_key=skey, extensions=ext if ext != ["rs", "txt"] else ["rs"],
+                                             structured_key=skey, extensions=ext,
                                              extra_files=extra)
                             n += 1
                             sig = {"use_cache": str(use_cache), "structured_key": skey, "extensions": str(ext), "lock": str(lock)}
@@ -822,7 +826,7 @@ def c16(tier):
     locktext_step(v, binary, tier)
     batch.judge(v, {"C16"})
     v.cov["exhaustive"] = True
-    v.cov["rule"] = ("all combinations of use_cache {omitted,true,false} x structured {omitted,false,true} x extensions {omitted,[rs]} x "
+    v.cov["rule"] = ("all combinations of use_cache {omitted,true,false} x structured {omitted,false,true} x extensions {omitted,[rs],[rs,inc],[zz,rs,aa]} x "
                      "lock {absent, ahead, behind, corrupt, empty} x tree class x mode, each also as a two-run history; configuration error "
                      "classes in both modes; distinct = (configuration, steps)")
     return v.finish()
